@@ -19,6 +19,21 @@ from .reservoir import N, R, SIM_CLASSES, build_matrix_rows, k_atom, rows_of
 LEVEL = "other"
 
 
+def rhs_rule(ctx, rule):
+    from ..values import Arr2
+    from .c04 import check_rhs_is_previous_level
+
+    for cls in SIM_CLASSES:
+        it, fc, parts = _step(ctx, cls)
+        seen = set()
+        for p, ev, A, b in parts:
+            st = [e for e in p.events if e.kind == "store_sub" and isinstance(e.data["base"], Arr2) and e.data["value"] is ev.data.get("result")]
+            if not st or nf.key(b.gen) in seen:
+                continue
+            seen.add(nf.key(b.gen))
+            check_rhs_is_previous_level(ctx, rule, RES + cls + ".simulate", f"{fc.file}:{ev.line}", b, st[0].data["base"], it)
+
+
 def check(ctx):
     P = ctx.P
     f = P.func(RES + "_build_matrix")
@@ -60,6 +75,8 @@ def check(ctx):
             ok, "C02-c", RES + f"SinglePhaseReservoir.simulate:initial state [schedule given={arm is False}]", fs.where(),
             "level 0 is uniformly m_i with the frac-face node set to the first frac-face value", signature="initial state", **det,
         )
+    # right-hand side of each step is the previous level (no extra clipping)
+    rhs_rule(ctx, "C02-b")
     # ---- C02-d/e flux stencil and time quadrature
     n = flux_mode(ctx, "C02-d")
     ctx.floor("C02-d", n, 1, "flux-mode recovery paths")
